@@ -99,6 +99,9 @@ pub struct Gen<'a> {
     pub stats: Vec<&'static str>,
     /// source text of the dedicated near-miss / control functions (appended after the others)
     extra_src: String,
+    /// global `let`s: (name, type), and their source text
+    globals: Vec<(String, Ty)>,
+    globals_src: String,
 }
 
 /// the typing rules covered by `Knobs::near`
@@ -126,6 +129,10 @@ pub const NEAR_KINDS: &[&str] = &[
     "coalesce-never-hole-result",
     "coalesce-never-hole-option",
     "if-never-hole-result",
+    "global-struct-field-type",
+    "global-struct-missing-field",
+    "global-struct-extra-field",
+    "global-struct-duplicate-field",
 ];
 
 const INTS: &[i64] = &[
@@ -161,6 +168,8 @@ impl<'a> Gen<'a> {
             ill_kind: None,
             stats: vec![],
             extra_src: String::new(),
+            globals: vec![],
+            globals_src: String::new(),
         }
     }
 
@@ -880,7 +889,7 @@ impl<'a> Gen<'a> {
         let sig = self.s.funs[i].clone();
         self.cur_fn = i;
         self.ret = sig.ret.clone();
-        self.scope = vec![sig.params.clone()];
+        self.scope = vec![self.globals.clone(), sig.params.clone()];
         let d = self.k.max_depth;
         let n = self.rng.range(0, 4);
         let mut body = self.stmts(n, d.saturating_sub(1), 2);
@@ -1050,6 +1059,23 @@ impl<'a> Gen<'a> {
                 };
                 self.add_fn(vec![("q".into(), Ty::Bool)], Ty::Int, body);
             }
+            k @ ("global-struct-field-type" | "global-struct-missing-field" | "global-struct-extra-field" | "global-struct-duplicate-field") => {
+                // a global `let` with a struct literal that does not conform to the definition
+                // (control: a conforming one); a function reads its fields
+                let tgt = self.add_struct(vec![(fa.clone(), t1.clone()), (fb.clone(), Ty::Int)]);
+                let tn = sname(self, tgt);
+                let g = format!("G{}", self.globals.len());
+                let lit = match (k, mistyped) {
+                    ("global-struct-field-type", _) => format!("{tn} {{ {fa}: {l2}, {fb}: 1 }}"),
+                    ("global-struct-missing-field", true) => format!("{tn} {{ {fb}: 1 }}"),
+                    ("global-struct-extra-field", true) => format!("{tn} {{ {fa}: {l1}, {fb}: 1, zz{u}: 2 }}"),
+                    ("global-struct-duplicate-field", true) => format!("{tn} {{ {fa}: {l1}, {fb}: 1, {fb}: 2 }}"),
+                    _ => format!("{tn} {{ {fa}: {l1}, {fb}: 1 }}"),
+                };
+                self.globals_src.push_str(&format!("let {g} = {lit}\n"));
+                self.globals.push((g.clone(), Ty::Struct(tgt)));
+                self.add_fn(vec![], t1, format!("let w = saturating_add(({g}).{fb}, 1)\nreturn ({g}).{fa}"));
+            }
             _ => {
                 // match statement: literal pattern of another type than the scrutinee
                 self.add_fn(
@@ -1085,6 +1111,22 @@ impl<'a> Gen<'a> {
             }
             self.near_fn(kind, mistyped);
         }
+        // global `let`s of literal form (visible in every function)
+        if self.rng.chance(1, 2) {
+            let ng = self.rng.range(1, 2);
+            for _ in 0..ng {
+                let t = loop {
+                    let t = self.any_ty(1);
+                    if !matches!(t, Ty::Unit) {
+                        break t;
+                    }
+                };
+                let lit = self.literal(&t);
+                let g = format!("G{}", self.globals.len());
+                self.globals_src.push_str(&format!("let {g} = {lit}\n"));
+                self.globals.push((g, t));
+            }
+        }
         let mut src = String::from("use t\n");
         for (n, vs) in &self.s.enums {
             src.push_str(&format!("enum {n} {{ {} }}\n", vs.join(", ")));
@@ -1093,6 +1135,7 @@ impl<'a> Gen<'a> {
             let parts: Vec<String> = fs.iter().map(|(f, t)| format!("{f} {}", self.s.ty_src(t))).collect();
             src.push_str(&format!("struct {n} {{ {} }}\n", parts.join(", ")));
         }
+        src.push_str(&self.globals_src);
         for i in 0..nf {
             let f = self.function(i);
             src.push_str(&f);
